@@ -92,6 +92,7 @@ def main(tier):
     for i, m in enumerate(["auto", "mean", "scalar", "true", "false"] * 2):
         if i < len(vcases):
             vcases[i]["mode"] = m
+    vcases = layerlib.corner_cases(2) + vcases
     specs = [s for ch in core.pmap(layerlib.realise_chunk, core.shards(vcases, 16)) for s in ch]
     order = [c for ch in core.shards(vcases, 16) for c in ch]
     exp = layerlib.run_gen(chk, specs)
